@@ -78,6 +78,14 @@ CHECKS["C16"] = (
     "DESIGN.md section 5 C16",
 )
 
+CHECKS["C12"] = (
+    "exploration",
+    "schedule exploration with an online history checker: 2-3 real threads performing atom operations are serialised at statement granularity by a cooperative scheduler (sys.monitoring LINE yield injection, lock proxies); recorded call/return histories are checked for linearizability against a sequential atom model (unique tokens), validator/watch/return-value oracles, and a CAS-retry bound counted at a hook",
+    "Held on thousands of distinct interleavings: seeded random walks over random 2-3 thread scenarios, depth-first enumeration of schedules with <= 2 preemptions for 4 fixed scenarios (budget-capped; completeness reported in evidence), free-running stress with a 1 microsecond switch interval, and single-threaded termination over values not equal to themselves. Exploration: only the interleavings produced are judged.",
+    "Trusted: the sequential atom model and the brute-force linearizability search (histories <= 9 ops); preemption is assumed to matter only at statement boundaries of the instrumented code objects; watch ordering across threads is not constrained.",
+    "DESIGN.md section 5 C12, section 3.5",
+)
+
 NOT_BUILT ="check not built yet in this session (design in DESIGN.md section 5); not claimed until its monitor exists and is quiet on the unchanged tree"
 
 
